@@ -35,6 +35,7 @@ EXPLANATION = (
   ' (LOOP-break) no loop over the items of a collection is left by a branch that does nothing but `break` on a test about the item (end-of-input sentinels, flags set in the loop body and searches whose variable is read afterwards excepted): an item that is to be skipped does not end the processing of the items after it;'
   ' (FIN-regex) each pattern of the time-expression, length, colour and parameter parsers, applied the way its use sites apply it, accepts the well-formed values of the TTML2 syntax with the expected captures and rejects the near misses of a probe table written from the specification;'
   " (TERM-refs) merge_chained_styles takes a style reference out of the element's list before it follows it, so a cycle of style references ends instead of recursing until RecursionError;"
+  + common.SHARED_CLAUSES['color'] + common.SHARED_CLAUSES['text']
 )
 RULE_TEXT = "per extraction call site x exception class, per styling step, per element class x flag, per arithmetic use of an Optional time"
 UNDECIDED = ["par/seq/dur resolution and implicit durations as values", "white-space and anonymous-span semantics", "time expression arithmetic per syntax (h/m/s/ms/f/t)"]
@@ -59,20 +60,57 @@ def check_nonzero_rates(ctx, r: exc.Raises):
   fr = ix.func("ttconv.imsc.attributes:FrameRateAttribute.extract")
   ctx.unit(fr.module)
   ce = ConstEval(ix)
-  rets = [x for x in own_nodes(fr.node) if isinstance(x, ast.Return) and x.value is not None]
-  bad = []
-  for x in rets:
-    v = ce.try_ev(fr.module, x.value, fr.cls, default=None)
-    if v is not None and not isinstance(v, str) and getattr(v, "text", None) is None and v > 0:
+  # by interpretation on sample <tt> elements (attribute values: absent, valid, zero, malformed); the frozen shape is the fallback
+  from ..consteval import NotConst as _NC, Raised as _R
+  from ..rules.minieval import MiniEval
+  from fractions import Fraction as _F
+
+  class _Attrib(dict):
+    def get(self, k, d=None):
+      return dict.get(self, k.split("}")[-1] if isinstance(k, str) else k, d)
+  samples = [({}, _F(30)), ({"frameRate": "25"}, _F(25)), ({"frameRate": "24", "frameRateMultiplier": "1000 1001"}, _F(24000, 1001)),
+             ({"frameRate": "30", "frameRateMultiplier": "1000 1001"}, _F(30000, 1001)), ({"frameRateMultiplier": "1 2"}, _F(15)),
+             ({"frameRate": "0"}, None), ({"frameRate": "25", "frameRateMultiplier": "0 1"}, None), ({"frameRate": "25", "frameRateMultiplier": "1 0"}, None),
+             ({"frameRate": "abc"}, None), ({"frameRate": "25", "frameRateMultiplier": "x"}, None), ({"frameRate": "-5"}, None), ({"frameRate": "25 "}, None)]
+  decided = True
+  bad_ = []
+  for attrs, want in samples:
+    try:
+      r_ = MiniEval(ix, opaque_calls={"LOGGER": None}).call(fr, [{"__record__": "Element", "attrib": _Attrib(attrs)}])
+    except _R:
+      bad_.append(f"{attrs}: raises")
       continue
-    txt = unparse(x.value)
-    guard = [g for g in own_nodes(fr.node) if isinstance(g, ast.If) and unparse(g.test).replace(" ", "") in (f"{txt}<=0".replace(" ", ""), f"{txt}<0".replace(" ", "") + "x")
-             and g.body and isinstance(g.body[-1], ast.Return) and g.lineno < x.lineno]
-    if not guard:
-      bad.append(txt)
-  ok = not bad and len(rets) >= 1
-  ok_all &= ctx.check(ok, "NONZERO", f"{fr.qualname}|returns only positive frame rates", ctx.where(fr.module, fr.node), "every returned rate is a positive constant or guarded by `<= 0`",
-                      f"FrameRateAttribute.extract can return a non-positive rate ({bad}): time expressions in frames then divide by zero")
+    except _NC:
+      decided = False
+      break
+    if not isinstance(r_, (int, _F)) or isinstance(r_, bool):
+      decided = False
+      break
+    if r_ <= 0:
+      bad_.append(f"{attrs}: returns {r_}, a non-positive rate (time expressions in frames then divide by zero)")
+    elif want is not None and r_ != want:
+      bad_.append(f"{attrs}: returns {r_} instead of exactly {want} (ttp:frameRate x ttp:frameRateMultiplier as a ratio of integers)")
+  if decided:
+    ok = not bad_
+    ok_all &= ctx.check(ok, "NONZERO", f"{fr.qualname}|returns only positive frame rates", ctx.where(fr.module, fr.node), f"interpreted on {len(samples)} sample attribute sets: positive and exact",
+                        "FrameRateAttribute.extract, interpreted on sample <tt> elements: " + "; ".join(bad_[:4]))
+  else:
+    rets = [x for x in own_nodes(fr.node) if isinstance(x, ast.Return) and x.value is not None]
+    bad = []
+    for x in rets:
+      v = ce.try_ev(fr.module, x.value, fr.cls, default=None)
+      if v is not None and not isinstance(v, str) and getattr(v, "text", None) is None and v > 0:
+        continue
+      txt = unparse(x.value)
+      guard = [g for g in own_nodes(fr.node) if isinstance(g, ast.If) and unparse(g.test).replace(" ", "") in (f"{txt}<=0".replace(" ", ""), f"{txt}<0".replace(" ", "") + "x")
+               and g.body and isinstance(g.body[-1], ast.Return) and g.lineno < x.lineno]
+      if not guard:
+        bad.append(txt)
+    if not bad and len(rets) >= 1:
+      ctx.ok("NONZERO", f"{fr.qualname}|returns only positive frame rates", ctx.where(fr.module, fr.node), "every returned rate is a positive constant or guarded by `<= 0`")
+    else:
+      ok_all = False
+      ctx.undecide("NONZERO", f"{fr.qualname}: neither in the interpreted subset nor of the reference shape")
   tr = ix.func("ttconv.imsc.attributes:TickRateAttribute.extract")
   rets = [x for x in own_nodes(tr.node) if isinstance(x, ast.Return) and x.value is not None]
   bad = []
@@ -496,6 +534,7 @@ def check_timing_arithmetic(ctx):
 
 
 def run(ctx):
+  common.check_shared_helpers(ctx, color=True, text=True)
   ix = ctx.ix
   ty = Typer(ix)
   r = exc.Raises(ix, ty)
